@@ -315,6 +315,12 @@ pub(crate) mod verif_k3 {
     pub const S3_B: [u16; 5] = [0x88, 0xF8, 0x66, 0xCC, 0xA2];
     /// x0 ^ x1 ^ x2, maj(x0,x1,x2), x0 & !x2, x1 | x2
     pub const S3_C: [u16; 4] = [0x96, 0xE8, 0x0A, 0xFC];
+    /// B = x1 | (x0 & x2), A = x0 & x2: A is independent of x1 and is the (x1 = 0)-cofactor of B; on
+    /// level 0 the node of B is entered (and therefore visited by level_swap) BEFORE the node of A, so
+    /// swapping levels 0/1 must re-find A's node in the taken old upper level (`old_upper.get`)
+    pub const S3_D: [u16; 2] = [0xEC, 0xA0];
+    /// the same two functions in the other insertion order (A's node is moved down first)
+    pub const S3_E: [u16; 2] = [0xA0, 0xEC];
     // 4 variables: x0 = 0xAAAA, x1 = 0xCCCC, x2 = 0xF0F0, x3 = 0xFF00
     /// (x0 & x1) | (x2 & x3), x0 ^ x3, x1 & (x2 | x3)
     pub const S4_A: [u16; 3] = [0xF888, 0x55AA, 0xCCC0];
@@ -336,7 +342,7 @@ pub(crate) mod verif_k3 {
     mod native {
         use super::*;
         fn all<K: RefKind>() {
-            for specs in [&S3_A[..], &S3_B[..], &S3_C[..]] {
+            for specs in [&S3_A[..], &S3_B[..], &S3_C[..], &S3_D[..], &S3_E[..]] {
                 for l in 0..2 {
                     scenario_level_down::<K>(3, specs, l);
                     for l2 in 0..2 {
@@ -425,6 +431,33 @@ pub(crate) mod verif_k3 {
             };
         }
 
+        // ---- vacuity self-tests (tier "selftest": each MUST be refuted on the current tree) ----
+        /// a leaked reference must be found by the exact reference-count audit
+        #[kani::proof]
+        fn selftest_audit_detects_leaked_reference() {
+            let m = RefManager::<KBdd>::new(3);
+            let live = setup(&m, &S3_A);
+            let _leaked = m.clone_edge(&live.e[0]);
+            audit(&m, &live);
+        }
+        /// a handle that denotes another function than specified must be found
+        #[kani::proof]
+        fn selftest_audit_detects_changed_function() {
+            let m = RefManager::<KBdd>::new(3);
+            let mut live = setup(&m, &S3_A);
+            live.spec[1] = 0xF0;
+            audit(&m, &live);
+        }
+        /// the reference manager must reject `set_child` on a node that is in a level view
+        #[kani::proof]
+        fn selftest_protocol_rejects_set_child_in_view() {
+            let m = RefManager::<KBdd>::new(3);
+            let live = setup(&m, &S3_A);
+            let node = m.get_node(&live.e[0]).unwrap_inner();
+            let old = unsafe { node.set_child(0, KBdd::const_edge(true)) };
+            m.drop_edge(old);
+        }
+
         // ---- feasibility gate ----
         level_down_case!(gate_bdd3_a_level_down_0, KBdd, 3, S3_A, 0);
 
@@ -488,6 +521,12 @@ pub(crate) mod verif_k3 {
         level_down2_case!(bdd3_b_twice_level_down_0_1, KBdd, 3, S3_B, 0, 1);
         level_down2_case!(bdd3_b_twice_level_down_1_0, KBdd, 3, S3_B, 1, 0);
         level_down2_case!(bdd3_c_twice_level_down_1_1, KBdd, 3, S3_C, 1, 1);
+
+        // shared cofactor node that must be re-found in the taken level (see S3_D)
+        level_down_case!(bdd3_d_level_down_0, KBdd, 3, S3_D, 0);
+        level_down_case!(bdd3_d_level_down_1, KBdd, 3, S3_D, 1);
+        level_down_case!(bdd3_e_level_down_0, KBdd, 3, S3_E, 0);
+        set_order_case!(bdd3_d_set_var_order_210, KBdd, 3, S3_D, [2, 1, 0]);
 
         // ---- simple BDD, 3 levels: set_var_order_seq, all 6 total orders ----
         set_order_case!(bdd3_b_set_var_order_012, KBdd, 3, S3_B, [0, 1, 2]);
